@@ -16,15 +16,16 @@ def call_ctx(f, call, env):
     for i, a in enumerate(anc):
         k = a.get('k')
         nxt = anc[i + 1] if i + 1 < len(anc) else call
-        if k == 'CompoundStmt' and loops:
-            # inside a loop body: an earlier `if (c) continue / break / return;` means the clause is only posted when c is false.
+        if k == 'CompoundStmt':
+            # an earlier `if (c) continue / break / return / throw;` in the same block means the clause is only posted when c is false (inside a loop
+            # body: a guard of the iteration; outside: a path condition).
             # Exits taken because an earlier clause failed (`if (!new_clause(..)) return ..`) are not conditions of the schema.
             for sib in kids(a):
                 if sib is nxt:
                     break
                 if sib.get('k') == 'IfStmt' and sib['slots'].get('else') is None and _always_exits(sib['slots'].get('then')) \
                         and not any((m.get('callee_name') or '') in CLAUSE_SINKS or (m.get('callee_name') or '').endswith(('::propagate', '::new_clause')) for m in walk(sib['slots'].get('cond'))):
-                    loops.extend(_literals(canon(sib['slots'].get('cond'), env, subst=False), False))
+                    (loops if loops else when).extend(_literals(canon(sib['slots'].get('cond'), env, subst=False), False))
         if k == 'CXXForRangeStmt':
             v = a['slots']['var']
             loops.append(('each', canon(a['slots']['range'], env, subst=False), tuple(v['bindings']) if v.get('bindings') else v.get('name')))
@@ -206,3 +207,34 @@ def show_clause(c):
     for lp in reversed(loops):
         s = '%s %s: %s' % (lp[0], ' '.join(show(x) for x in lp[1:]), s)
     return s
+
+
+def failure_block(f, call):
+    """(block, if-statement): the statements executed when the tested call returned false - the arm of the `if` that tests it which its failure selects
+    (`if (!c) {B}`, `if (c) {..} else {B}`), or, when the failure falls out of the `if` and its success arm always leaves (`if (c) continue; B`), the
+    statements that follow in the same block (as a synthetic compound).  None when the call is not tested that way."""
+    from .tables import decisions
+    iff = None
+    for a in f.ancestors(call):
+        if a.get('k') == 'IfStmt' and _contains(a['slots'].get('cond'), call):
+            iff = a
+            break
+        if a.get('k') in ('CompoundStmt', 'ForStmt', 'WhileStmt', 'DoStmt', 'CXXForRangeStmt', 'LambdaExpr'):
+            break
+    if iff is None:
+        return None
+    outs = {o for atoms, o in decisions(iff['slots'].get('cond')) if any(n is call and pol is False for n, pol in atoms)}
+    if len(outs) != 1:
+        return None
+    o = outs.pop()
+    arm, other = (iff['slots'].get('then'), iff['slots'].get('else')) if o else (iff['slots'].get('else'), iff['slots'].get('then'))
+    if arm is not None:
+        return arm, iff
+    if other is not None and _always_exits(other):
+        par = f.parent(iff)
+        if par is not None and par.get('k') == 'CompoundStmt':
+            sibs = list(kids(par))
+            i = [k for k, x in enumerate(sibs) if x is iff]
+            if i:
+                return {'k': 'CompoundStmt', 'c': sibs[i[0] + 1:], 'loc': iff.get('loc'), 'synthetic': 'after an early exit'}, iff
+    return None
